@@ -47,14 +47,16 @@ class ConfScenario(WorldScenario):
     def _propose(self, w, r):
         cwd = r.pick(["root", "root", "sub", "elsewhere"])
         x = r.random()
+        # global options on a config command must not change what it stores
+        flags = r.pick([[], [], [], ["-v", "debug"], ["--no-color"], ["--use-color"], ["-b", "slurm"], ["-v", "warning"]])
         if x < 0.30:
             if r.chance(0.5):
                 k = r.pick(list(EFFECT_KEYS))
-                return {"op": "conf_set", "key": k, "value": r.pick(EFFECT_KEYS[k]), "cwd": cwd}
-            return {"op": "conf_set", "key": r.pick(ROUNDTRIP_KEYS), "value": r.pick(VALUES), "cwd": cwd}
+                return {"op": "conf_set", "key": k, "value": r.pick(EFFECT_KEYS[k]), "cwd": cwd, "flags": flags}
+            return {"op": "conf_set", "key": r.pick(ROUNDTRIP_KEYS), "value": r.pick(VALUES), "cwd": cwd, "flags": flags}
         if x < 0.42:
             keys = list(self.m_conf) + ROUNDTRIP_KEYS[:6] + list(EFFECT_KEYS)[:3] + ["never.set"]
-            return {"op": "conf_unset", "key": r.pick(keys), "cwd": cwd}
+            return {"op": "conf_unset", "key": r.pick(keys), "cwd": cwd, "flags": flags}
         if x < 0.62:
             # a value that cannot be printed (undecodable bytes on the command line) is not read back
             keys = [k for k, v in self.m_conf.items() if not (isinstance(v, str) and "\udce9" in v)]
@@ -71,13 +73,13 @@ class ConfScenario(WorldScenario):
     def apply_extra(self, w, op):
         kind = op["op"]
         if kind == "conf_set":
-            res = w.gwf(["config", "set", op["key"], op["value"]], op["cwd"])
+            res = w.gwf(op.get("flags", []) + ["config", "set", op["key"], op["value"]], op["cwd"])
             self._ok(w, res, op)
             if res.exit_code == 0:
                 self.m_conf[op["key"]] = coerce(op["value"])
             self._check_file(w, op)
         elif kind == "conf_unset":
-            res = w.gwf(["config", "unset", op["key"]], op["cwd"])
+            res = w.gwf(op.get("flags", []) + ["config", "unset", op["key"]], op["cwd"])
             self._ok(w, res, op)
             if res.exit_code == 0:
                 self.m_conf.pop(op["key"], None)
